@@ -341,7 +341,7 @@ func (g *rgen) stmts(d int, max int) string {
 }
 
 // must-pass inputs of repaired findings (C13-D1 6d63f64, C13-D7 ac301ad, C13-D5 3eb6e21, C13-D9 0ea428f, C13-D2c 7286f4e,
-// C13-D2a/D2f cfb4151, C13-D2e 9099367, C13-D3g 20d53e9).  C13-D1: identifiers that are
+// C13-D2a/D2f cfb4151, C13-D2e 9099367, C13-D3g 20d53e9, C13-D10 177d11f).  C13-D1: identifiers that are
 // printed with a \u{...} escape followed by a word, under minify-whitespace + ascii
 var mustPassCorpus = []string{
 	"var \U00010000; \U00010000 in x", "import {\U00010000 as x} from 'p'", "import * as \U00010000 from 'p'; \U00010000", "export * as \U00010000 from 'p'",
@@ -363,6 +363,9 @@ var mustPassCorpus = []string{
 	// C13-D3g (fixed by 20d53e9): a keyword cannot be a shorthand property of a binding pattern or object literal
 	// (these must be rejected; if esbuild accepts one again, its output is rejected by node and the lenient-acceptance rule reports it)
 	"var {import} = x", "var {if} = x", "let {new} = x", "({import} = x)", "x = {import}", "function f({typeof}){}", "({if}) => 1", "for (var {in} of x);", "var {a, import} = x", "var {a: {if}} = x",
+	// C13-D10 (fixed by 177d11f): the head of a for / for-in loop must not start with "let ["
+	"for ((let)[x];;);", "for ((let)[x] = 1;;);", "for ((let)[x] in y);", "for ((let)[x] of y);", "for ((let)[x]++;;);", "for ((let)[x].y in z);", "for ((let)[x]();;);", "for ((let)[x] = a in b, c;;);",
+	"for (let;;) break", "for (let in {});", "for (a = (let)[x];;) break", "for (;(let)[x];(let)[y]) break", "function f(){ for ((let)[x] in y) for ((let)[z];;) break }",
 }
 
 var boundaryCorpus = []string{
@@ -659,7 +662,6 @@ var knownReplays = []knownReplay{
 	{"known-D6", "known-D6-export-star-as-eval-creates-strict-binding", "export * as eval from 'm'", variant{format: api.FormatESModule}, "invalidout", "valid module output (the input is a valid module)"},
 	{"known-D4c", "known-D4c-parentheses-added-behind-preserved-comment", "class Foo { foo =/**/() => super.x }", variant{}, "notfixed", "second Transform reproduces the first output"},
 	{"known-D8", "known-D8-commonjs-wrapper-in-esm-keeps-sloppy-identifiers", "return\nlet", variant{format: api.FormatESModule}, "unreparsable", "an error, or ESM output that is valid strict code"},
-	{"known-D10", "known-D10-let-bracket-at-start-of-for-head", "for ((let)[x];;);", variant{}, "invalidout", "`for ((let)[x]; ; ) ;` (a for head must not start with `let [`: that is a lexical declaration)"},
 	{"known-D11", "known-D11-function-in-switch-case-aliased-again-by-every-pass", "switch (0) { default: function f() {} }", variant{}, "notfixed", "second Transform reproduces the first output"},
 	{"known-D4d", "known-D4d-directive-string-escape-not-stable", "-0;\n'\\u{1F600}';\n", variant{}, "notfixed", "second Transform reproduces the first output"},
 	{"known-D4a", "known-D4a-infinity-statement-dropped-by-second-pass", "if (x) 1e400; else y", variant{}, "notfixed", "second Transform reproduces the first output"},
